@@ -225,6 +225,16 @@ def check(run: Run, tier: str, seed: int):
         ops = gen_operands(srng, opts, kind)
         semiring = srng.choice(semirings)
         fold, optimize = srng.choice(real.FLAGS)
+        if i % 10 == 9 and cls in ("emb", "emb_pos", "poly"):
+            # operands whose sum layers split one weight shape differently, in opposite order: the product has sum
+            # layers of equal arity / units whose column permutations differ
+            kind = "pair"
+            p1 = gen.sibling_sums_spec(srng, signed=cls != "emb_pos" and semiring != "lse-sum")
+            p2 = gen.sibling_sums_spec(srng, signed=cls != "emb_pos" and semiring != "lse-sum",
+                                       splits=[tuple(x) for x in reversed(p1["splits"])], vs=p1["vars"],
+                                       states={int(k): v for k, v in p1["states"].items()})
+            ops = [{"spec": p1}, {"spec": p2}]
+            fold = True
         scen = {"kind": kind, "class": cls, "operands": ops, "semiring": semiring, "fold": fold, "optimize": optimize}
         f1 = gen.spec_features(ops[0]["spec"])
         run.case(ops, nontrivial=f1["had"] + f1["kron"] > 0, sample=scen if i < 1 else None,
